@@ -1592,11 +1592,74 @@ def grid_method(interp, g: Grid, name, args, kwargs, node):
     return None
 
 
+def sparse_shape(interp, o, depth=0):
+    """(rows, cols) polys of an abstract sparse object when derivable"""
+    if depth > 8:
+        return None
+    if isinstance(o, Term) and o.op == "sparse":
+        ob = o.kw.get("obj")
+        if isinstance(ob, ObjV):
+            return sparse_shape(interp, ob, depth + 1)
+        return None
+    if not is_sparse(o):
+        if isinstance(o, Grid) and o.ndim == 2:
+            return o.dim_len(0), o.dim_len(1)
+        if isinstance(o, Term) and o.op == "toarray":
+            return sparse_shape(interp, o.args[0], depth + 1)
+        return None
+    sh = o.attrs.get("shape")
+    if isinstance(sh, TupleV) and len(sh.items) == 2 and all(isinstance(x, Num) for x in sh.items):
+        return sh.items[0].p, sh.items[1].p
+    org = o.origin
+    if not isinstance(org, Term):
+        return None
+    if org.op in ("triplets", "diags"):
+        s2 = org.kw.get("shape")
+        if isinstance(s2, TupleV) and len(s2.items) == 2 and all(isinstance(x, Num) for x in s2.items):
+            return s2.items[0].p, s2.items[1].p
+        return None
+    if org.op in ("spadd", "spsub", "scale", "spscale_array") or org.op in ("tocoo", "tocsr", "tocsc", "copy", "astype"):
+        for a in org.args:
+            r = sparse_shape(interp, a, depth + 1)
+            if r is not None:
+                return r
+        return None
+    if org.op == "from_dense":
+        return sparse_shape(interp, org.args[0], depth + 1) if org.args else None
+    if org.op == "bmat" and org.args and isinstance(org.args[0], Term) and org.args[0].op == "m.reshape":
+        rs = org.args[0]
+        shp = rs.args[1:]
+        if len(shp) == 1 and isinstance(shp[0], TupleV):
+            shp = shp[0].items
+        blk = None
+        a0 = rs.args[0]
+        if isinstance(a0, Term) and a0.op == "object_array" and isinstance(a0.args[0], ListV):
+            st = list(a0.args[0].items)
+            while st and blk is None:
+                it = st.pop(0)
+                if isinstance(it, Elem) and not (isinstance(it.value, Const) and it.value.v is None):
+                    blk = sparse_shape(interp, it.value, depth + 1)
+                elif isinstance(it, (Rep, Loop, Guard)):
+                    st = list(it.items) + st
+        if blk is not None and len(shp) == 2 and all(isinstance(x, Num) for x in shp):
+            return shp[0].p * blk[0], shp[1].p * blk[1]
+    return None
+
+
 def sparse_method(interp, o: ObjV, name, args, kwargs, node):
     if name in ("tocoo", "tocsr", "tocsc", "copy", "astype", "todok", "tolil"):
         return sparse_convert(interp, o, name)
     if name in ("toarray", "todense"):
-        return Term("toarray", [_freeze_sparse(o)])
+        sh = sparse_shape(interp, o)
+        fz = _freeze_sparse(o)
+        if sh is not None:
+            i = interp.fresh_idx("r")
+            j = interp.fresh_idx("c")
+            g = Grid([[(i, sh[0])], [(j, sh[1])]], Num(Poly.app("entry", f"sp#{o.uid}", Poly.atom(i), Poly.atom(j))))
+            interp.dense_of = getattr(interp, "dense_of", {})
+            interp.dense_of[f"sp#{o.uid}"] = o
+            return g
+        return Term("toarray", [fz])
     if name == "sum":
         ax = _axis(kwargs, args, 0)
         return Term("spsum", [_freeze_sparse(o)], {"axis": Const(ax)})
